@@ -1,5 +1,5 @@
 (* C05 - the accepted language is exactly the documented grammar over the reference tokenisation. *)
-From Spdx Require Import Props.Shipped Spec.Lex Spec.Grammar Proofs.ScanRef Proofs.ParseGrammar Proofs.ApiFacts.
+From Spdx Require Import Props.Shipped Spec.Lex Spec.Grammar Spec.Reject Proofs.ScanRef Proofs.ParseGrammar Proofs.ApiFacts Proofs.RejectProof.
 Local Open Scope list_scope.
 
 (* the scanner of scan.go, with its buffer rewriting and look-behind, is the reference tokeniser *)
@@ -19,6 +19,62 @@ Proof.
     + rewrite (scan_refines T0 HT0), Hs. apply parse_sound_complete. assumption.
 Qed.
 
+(* "Everything else is rejected", exactly: a string is accepted iff its reference tokenisation passes the shape test of
+   Spec/Reject.v - it starts with a token that can start a term and ends with one that can end a term (no dangling
+   operator), every adjacent pair of tokens is one of the listed ones, and parentheses are balanced.  The derivable
+   sequences are exactly those (Proofs/RejectProof.v: both directions, any length). *)
+Theorem C05_accepted_iff_shape s : validb T0 s = true <-> exists ts, ref_tokens T0 s = Ok ts /\ shape_ok ts = true.
+Proof.
+  rewrite (validb_true T0). split.
+  - intros [t H]. apply C05 in H. destruct H as [ts [Hs Hd]]. exists ts. split; [assumption|]. exact (derivable_shape ts t Hd).
+  - intros [ts [Hs Hk]]. destruct (shape_derivable ts Hk) as [t Hd]. exists t. apply C05. exists ts. split; assumption.
+Qed.
+
+(* the named classes: each makes the shape test fail, hence the string invalid, wherever it occurs *)
+Theorem C05_rejected_bad_pair s u a b v : ref_tokens T0 s = Ok (u ++ a :: b :: v) -> adj_ok a b = false -> validb T0 s = false.
+Proof.
+  intros Hs Hab. destruct (validb T0 s) eqn:V; [|reflexivity]. apply C05_accepted_iff_shape in V.
+  destruct V as [ts [Hs' Hk]]. rewrite Hs in Hs'. inversion Hs'; subst. rewrite (shape_bad_pair u a b v Hab) in Hk. discriminate.
+Qed.
+Theorem C05_rejected_bad_first s a ts : ref_tokens T0 s = Ok (a :: ts) -> starts_term a = false -> validb T0 s = false.
+Proof.
+  intros Hs Ha. destruct (validb T0 s) eqn:V; [|reflexivity]. apply C05_accepted_iff_shape in V.
+  destruct V as [ts' [Hs' Hk]]. rewrite Hs in Hs'. inversion Hs'; subst. rewrite (shape_bad_first a ts Ha) in Hk. discriminate.
+Qed.
+Theorem C05_rejected_bad_last s ts z : ref_tokens T0 s = Ok (ts ++ [z]) -> ends_term z = false -> validb T0 s = false.
+Proof.
+  intros Hs Hz. destruct (validb T0 s) eqn:V; [|reflexivity]. apply C05_accepted_iff_shape in V.
+  destruct V as [ts' [Hs' Hk]]. rewrite Hs in Hs'. inversion Hs'; subst. rewrite (shape_bad_last ts z Hz) in Hk. discriminate.
+Qed.
+Theorem C05_rejected_unbalanced s ts : ref_tokens T0 s = Ok ts -> bal 0 ts <> Some 0 -> validb T0 s = false.
+Proof.
+  intros Hs Hb. destruct (validb T0 s) eqn:V; [|reflexivity]. apply C05_accepted_iff_shape in V.
+  destruct V as [ts' [Hs' Hk]]. rewrite Hs in Hs'. inversion Hs'; subst. rewrite (shape_unbalanced ts' Hb) in Hk. discriminate.
+Qed.
+(* which pairs / first / last tokens are bad: doubled operators, adjacent terms, "()", WITH without an exception, an
+   exception without WITH, + or WITH on a LicenseRef, DocumentRef without ":LicenseRef-", dangling operators *)
+Theorem C05_named_classes :
+  (forall o o', In o [OAnd; OOr; OWith; OColon] -> In o' [OAnd; OOr; OWith; OColon; ORp; OPlus] -> adj_ok (TOp o) (TOp o') = false) /\
+  (forall a b, ends_term a = true -> starts_term b = true -> adj_ok a b = false) /\
+  adj_ok (TOp OLp) (TOp ORp) = false /\
+  (forall b, (forall e, b <> TExc e) -> adj_ok (TOp OWith) b = false) /\
+  (forall a e, a <> TOp OWith -> adj_ok a (TExc e) = false) /\
+  (forall x, adj_ok (TRef x) (TOp OPlus) = false /\ adj_ok (TRef x) (TOp OWith) = false) /\
+  (forall a, (forall l, a <> TLic l) -> adj_ok a (TOp OPlus) = false) /\
+  (forall d b, b <> TOp OColon -> adj_ok (TDoc d) b = false) /\
+  (forall b, (forall x, b <> TRef x) -> adj_ok (TOp OColon) b = false) /\
+  (forall a, (forall d, a <> TDoc d) -> adj_ok a (TOp OColon) = false) /\
+  (forall o, o <> OLp -> starts_term (TOp o) = false) /\ (forall e, starts_term (TExc e) = false) /\
+  (forall o, o <> ORp -> o <> OPlus -> ends_term (TOp o) = false) /\ (forall d, ends_term (TDoc d) = false).
+Proof. exact class_facts. Qed.
+(* the hypotheses are met: one string per class, tokenised by the reference tokeniser and rejected *)
+Example C05_classes_nonvacuous :
+  map (fun s => match ref_tokens T0 (s2l s) with Ok ts => Some (shape_ok ts) | _ => None end)
+      ["MIT AND OR ISC"; "MIT ISC"; "()"; "MIT WITH ISC"; "MIT AND Bison-exception-2.2"; "LicenseRef-a+"; "LicenseRef-a WITH Bison-exception-2.2";
+       "DocumentRef-a AND MIT"; "AND MIT"; "MIT OR"; "(MIT"; "MIT)"; "(MIT OR ISC) AND (Apache-2.0+ WITH Bison-exception-2.2 OR DocumentRef-a:LicenseRef-b)"]%string
+  = [Some false; Some false; Some false; Some false; Some false; Some false; Some false; Some false; Some false; Some false; Some false; Some false; Some true].
+Proof. vm_compute. reflexivity. Qed.
+
 (* named rejection classes, as instances of "no derivation" *)
 Example C05_examples :
   map (validb T0) [s2l "(Apache-2.0-or-later)"; s2l "DocumentRef-a:LicenseRef-b"; s2l "GPL-2.0++"; s2l "MIT-only"; s2l "mit"] = [true; true; true; true; true]
@@ -30,5 +86,5 @@ Example C05_examples :
 Proof. vm_compute. split; reflexivity. Qed.
 
 (* axioms the property theorems of this file depend on (one traversal for all of them) *)
-Definition C05_theorems := (@C05_scanner_general, @C05).
+Definition C05_theorems := (@C05_scanner_general, @C05, @C05_accepted_iff_shape, @C05_rejected_bad_pair, @C05_rejected_bad_first, @C05_rejected_bad_last, @C05_rejected_unbalanced, @C05_named_classes).
 Redirect "assumptions/C05" Print Assumptions C05_theorems.
